@@ -23,12 +23,12 @@ CHECKS = {
          "DESIGN.md §6 C05"),
  "C10": ("model_checking",
          "explicit-state IDDFS over real handlers + per-bridge counter model",
-         "Exhaustive enumeration of all interleavings of bridge creation and deposits over three bridge ids (two created mid-history), two denoms, zero/non-zero amounts, short/long recipients, payloads and an unfunded sender; oracle: accepted => bridge exists, returned sequence = that bridge's own counter, exactly one event with the 8 requested attributes, balances moved by the amount, token pair = independent derivation and immutable; a freshly created bridge has nothing pre-recorded; Two 82-character denoms sharing their first 80 characters are deposited into bridge 1. NextL1Sequence, TokenPairs (whole and paged), TokenPairByL1Denom and TokenPairByL2Denom queries = model in every state. A RestartViaGenesis letter (module genesis exported, JSON round trip, ValidateGenesis, import into the emptied module store) is part of the alphabet, so every clause is also decided across chain restarts.",
-         "Trusted: as C11 plus the independent L2-denom / bridge-address derivations. Bounded: 3 ids, depth 7 (quick) / 10 (thorough).",
+         "Exhaustive enumeration of all interleavings of bridge creation and deposits over three bridge ids (two created mid-history), two denoms, zero/non-zero amounts, short/long recipients, payloads and an unfunded sender; oracle: accepted => bridge exists, returned sequence = that bridge's own counter, exactly one event with the 8 requested attributes, balances moved by the amount, token pair = independent derivation and immutable; a freshly created bridge has nothing pre-recorded; Two 82-character denoms sharing their first 80 characters are deposited into bridge 1. Plain bank transfers reach the escrow address of bridge 1 (a denom nobody deposited yet) and of bridge 2 (before and after its creation). NextL1Sequence, TokenPairs (whole and paged), TokenPairByL1Denom and TokenPairByL2Denom queries = model in every state. A RestartViaGenesis letter (module genesis exported, JSON round trip, ValidateGenesis, import into the emptied module store) is part of the alphabet, so every clause is also decided across chain restarts.",
+         "Trusted: as C11 plus the independent L2-denom / bridge-address derivations. Bounded: 3 ids, depth 6 (quick) / 9 (thorough).",
          "DESIGN.md §6 C10"),
  "C01": ("model_checking",
          "explicit-state IDDFS over real handlers + balance ledger + per-bridge slices",
-         "Exhaustive enumeration of every history over create/deposit/propose/delete/advance/finalize/bank-send/role-update letters on three bridge ids (one never created), two denoms and two trees that differ only in the bridge id, with and without a registration fee; after every transition the ledger model equals every account's balances (and supply = sum of known accounts), the raw records and escrow of every non-addressed bridge are byte-identical, escrow decreases only through a successful finalize of the same bridge with a leaf of that bridge's tree, and rejected messages (incl. an under-funded escrow) leave the digest unchanged; in every state with a final output every leaf is also claimed with amount+1, amount+2^64 and 2^64 against an escrow topped up to cover it, and must be refused. A RestartViaGenesis letter (module genesis exported, JSON round trip, ValidateGenesis, import into the emptied module store) is part of the alphabet, so every clause is also decided across chain restarts.",
+         "Exhaustive enumeration of every history over create/deposit/propose/delete/advance/finalize/bank-send/role-update letters on three bridge ids (one never created), two denoms and two trees that differ only in the bridge id, with and without a registration fee; after every transition the ledger model equals every account's balances (and supply = sum of known accounts), the raw records and escrow of every non-addressed bridge are byte-identical, escrow decreases only through a successful finalize of the same bridge with a leaf of that bridge's tree, a deposit is accepted only into an existing bridge (also after a third party sent coins to the address a future bridge will have), and rejected messages (incl. an under-funded escrow) leave the digest unchanged; in every state with a final output every leaf is also claimed with amount+1, amount+2^64 and 2^64 against an escrow topped up to cover it, and must be refused. A RestartViaGenesis letter (module genesis exported, JSON round trip, ValidateGenesis, import into the emptied module store) is part of the alphabet, so every clause is also decided across chain restarts.",
          "Trusted: as C11 plus the independent leaf/tree code. Bounded: depth 5 (quick) / 7 (thorough), amounts 0-2.",
          "DESIGN.md §6 C01"),
  "C03": ("model_checking",
@@ -38,7 +38,7 @@ CHECKS = {
          "DESIGN.md §6 C03"),
  "C06": ("model_checking",
          "explicit-state IDDFS over real handlers + sequence/ledger model",
-         "Exhaustive enumeration of all delivery schedules over 4 L1 sequences x 3 senders (two executors, a stranger) x 2 contents (original / altered replay), interleaved with user withdrawals, transfers and executor-list changes via ExecuteMessages; the reachable state space saturates well below the depth bound. Oracle per transition: seq < next => NOOP + unchanged digest + no event, seq > next => error + unchanged, seq = next => SUCCESS, one event, credited or refunded exactly once, next+1; non-executor => unauthorised, unchanged; NextL1Sequence/NextL2Sequence queries, balances, supply = model in every state. Sequence 3 is a credited deposit whose hook fails; sequence 4 carries a hook in which the delivering executor relays sequence 4 once more (re-entrancy: a no-op). A RestartViaGenesis letter (module genesis exported, JSON round trip, ValidateGenesis, import into the emptied module store) is part of the alphabet, so every clause is also decided across chain restarts.",
+         "Exhaustive enumeration of all delivery schedules over 4 L1 sequences x 3 senders (two executors, a stranger) x 2 contents (original / altered replay), interleaved with user withdrawals, transfers and executor-list changes via ExecuteMessages; the reachable state space saturates well below the depth bound. Oracle per transition: seq < next => NOOP + unchanged digest + no event, seq > next => error + unchanged, seq = next => SUCCESS, one event, credited or refunded exactly once, next+1; non-executor => unauthorised, unchanged; NextL1Sequence/NextL2Sequence queries, balances, supply = model in every state. The executor registers / refreshes the bridge info at any point (other bookkeeping must not touch the sequence). Sequence 3 is a credited deposit whose hook fails; sequence 4 carries a hook in which the delivering executor relays sequence 4 once more (re-entrancy: a no-op). A RestartViaGenesis letter (module genesis exported, JSON round trip, ValidateGenesis, import into the emptied module store) is part of the alphabet, so every clause is also decided across chain restarts.",
          "Trusted: Go toolchain, cosmos-sdk store/auth/bank, harness world construction (mirrors the repo's test setup), runTx semantics. Bounded: 4 sequences, depth 8 (quick) / 11 (thorough).",
          "DESIGN.md §6 C06"),
  "C09": ("model_checking",
@@ -63,7 +63,7 @@ CHECKS = {
          "DESIGN.md §6 C17"),
  "C04": ("model_checking",
          "exhaustive enumeration of withdrawal trees through both chains' real handlers + independent tree builder",
-         "Every withdrawal tree of the stated menus is run through both chains: withdrawals are produced only by the real L2 handlers (user InitiateTokenWithdrawal and the refund path of FinalizeTokenDeposit), parsed from events, committed with the independent sorted-pair tree builder (own SHA3), proposed and finalized on L1, and every leaf is claimed. Enumerated: all single descriptors of kind (user withdrawal, refund of a malformed-recipient deposit, one or two withdrawals executed inside the deposit's own hook) x amount {1, 2^63-1, 2^63, 2^64-1, 2^64, 2^64+1, 2^128} x denom {short, 128-char, ibc/...} x recipient {lower, upper-case bech32, fresh account, L1 module account on the bank's blocked list}; relays are built from L1's events, the committing output is the bridge's second one, refunds also go to an upper-case L1 sender; all trees of size 2-3 (quick) / 2-4 (thorough) over a 12-entry menu; one covering tree per size up to 17. Oracle: every recorded withdrawal with a valid L1 recipient is paid exactly its amount; recording an amount that cannot be committed to a leaf, or a refund to an unpayable recipient, is a violation.",
+         "Every withdrawal tree of the stated menus is run through both chains: withdrawals are produced only by the real L2 handlers (user InitiateTokenWithdrawal and the refund path of FinalizeTokenDeposit), parsed from events, committed with the independent sorted-pair tree builder (own SHA3), proposed and finalized on L1, and every leaf is claimed. Enumerated: all single descriptors of kind (user withdrawal, refund of a malformed-recipient deposit, one or two withdrawals executed inside the deposit's own hook) x amount {1, 2^63-1, 2^63, 2^64-1, 2^64, 2^64+1, 2^128} x denom {short, 128-char, ibc/...} x recipient {lower, upper-case bech32, fresh account, L1 module account on the bank's blocked list}; relays are built from L1's events, the committing output is the bridge's second of three (neither oldest nor newest when claimed), refunds also go to an upper-case L1 sender; all trees of size 2-3 (quick) / 2-4 (thorough) over a 12-entry menu; one covering tree per size up to 17. Oracle: every recorded withdrawal with a valid L1 recipient is paid exactly its amount; recording an amount that cannot be committed to a leaf, or a refund to an unpayable recipient, is a violation.",
          "Trusted: as C08. Bounded: menus as listed; holdings above one deposit are produced by minting on L2 and funding the escrow.",
          "DESIGN.md §6 C04"),
  "C08": ("model_checking",
